@@ -21,7 +21,8 @@ impl Records {
     /// This is due to fundamental non-invertibility of the A2 file system's random access storage pattern.
     /// This routine assumes ASCII null terminates any record.
     pub fn from_fimg(fimg: &FileImage,record_length: usize,converter: impl TextConversion) -> Result<Records,DYNERR> {
-        if record_length < 2 {
+        if record_length < 2 || record_length > 0xffff {
+            log::error!("refusing record length {}",record_length);
             return Err(Box::new(Error::FileFormat));
         }
         let mut ans = Records::new(record_length);
